@@ -44,6 +44,19 @@ fn main() {
     }
     let idxa = by_source(&ua);
     ctx.run_slice(Slice::new(format!("assoc-spiders-and-operations[{} diagrams, boundaries <=2]", ua.len()), ua.len() as u64, |i, loc| check_assoc_from::<B>(&ua, &idxa, i as usize, loc)).heavy());
+    // associativity across a permutation of a long boundary: (f;p);g vs f;(p;g) on structured gluing pairs
+    let gp = ohmc::props::structured::gluing_pairs(if quick { 10 } else { 20 }, if quick { 5 } else { 6 });
+    ctx.run_slice(Slice::new(format!("assoc-structured-gluing[{} pairs x 2 permutations]", gp.len()), gp.len() as u64 * 2, |i, loc| {
+        let (_, f, g) = &gp[(i / 2) as usize];
+        let k = f.t.len();
+        let p = POpen::<u8, u8> { nodes: vec![0; k], edges: vec![], s: (0..k).collect(), t: if i % 2 == 0 { (0..k).collect() } else { (0..k).rev().collect() } };
+        // g's source leg has to be listed in the order p delivers
+        let mut g2 = g.clone();
+        if i % 2 == 1 {
+            g2.s.reverse();
+        }
+        check_assoc_triple::<B>(f, &p, &g2, loc);
+    }).heavy());
     // interchange again, on spiders with boundaries up to 2 (merging / splitting legs on both sides)
     let specs2 = Spec { n_min: 0, n_max: 2, e_min: 0, e_max: 0, ks: 0, kt: 0, lw: 1, lx: 1, a: 2, b: 2, q: 0 };
     let mut us2 = specs2.universe().all_open();
